@@ -161,6 +161,11 @@ fn probes(spec: &Spec, val: &Val) -> Vec<(Value, Value, Value)> {
                     out.push((d.clone(), d, b.clone()));
                 }
                 out.push((b.clone(), b.clone(), b.clone()));
+                if x == 0.0 {
+                    // the zero of the other sign is numerically *at* the bound
+                    let other = if matches!(b, Value::F32(_)) { Value::f32(-(x as f32)) } else { Value::f64(-x) };
+                    out.push((other.clone(), other, b.clone()));
+                }
                 if let Some(u) = float_step(b, true) {
                     out.push((u.clone(), u, b.clone()));
                 }
@@ -186,12 +191,16 @@ pub fn run(s: &dyn Subject, ctx: &Ctx) -> Option<DeclReport> {
         }
         // obtain the message from any rejected probe
         let mut msg: Option<String> = None;
+        let mut alt_formats: Vec<(&'static str, String)> = Vec::new();
         let mut verdicts = Vec::new();
         for (raw, q, b) in &ps {
             let obs = s.ctor(raw);
             rep.executions += 1;
             match &obs {
                 Obs::Err { variant, display } if variant == val.variant() => {
+                    if msg.is_none() {
+                        alt_formats = crate::subject::last_error_formats();
+                    }
                     msg.get_or_insert(display.clone());
                     verdicts.push((raw.clone(), q.clone(), b.clone(), false));
                 }
@@ -213,6 +222,16 @@ pub fn run(s: &dyn Subject, ctx: &Ctx) -> Option<DeclReport> {
         };
         if !msg.contains(&btxt) {
             rep.violate("message-does-not-state-bound", val.variant().into(), msg.clone(), btxt.clone(), String::new());
+        }
+        // formatting flags of the caller must not change what the message states: under `{:.1}`, `{:+}`, `{:#}`, `{:08}` the text is either the
+        // same, a prefix of it (precision applied to the whole message) or still names the bound as it is
+        for (spec_txt, t) in &alt_formats {
+            rep.executions += 1;
+            rep.guard("message_under_format_flags");
+            let same = t == &msg || msg.starts_with(t.as_str()) || t.trim() == msg.trim();
+            if !same && !t.contains(&btxt) {
+                rep.violate("message-does-not-state-bound-under-format-flags", format!("{} / {}", val.variant(), spec_txt), t.clone(), format!("{msg} (bound {btxt})"), String::new());
+            }
         }
         match read_relation(&msg) {
             Err(why) => rep.inconclusive.push(format!("{}: {} in {:?}", val.variant(), why, msg)),
